@@ -27,6 +27,10 @@ def main() -> int:
         if not usable(run, r):
             continue
         wb = {"doc": j["doc"], "cfg": inf["cfg"], "case": inf["label"]}
+        from ._ops import import_defect
+        pkg_defect = import_defect(actions_results(r))
+        if pkg_defect:
+            run.ev.count("packages_with_import_defects(C01)")
         for a, res in actions_results(r):
             if a["a"] == "endpoint_info" and not a["x"].get("unmatched") and inf.get("deterministic_valid"):
                 # census on the hand-built (known valid) documents: every documented status has its own branch
@@ -50,6 +54,8 @@ def main() -> int:
                 flags = rx.get("flags") or []
                 for eff, det in expect.check_response(variant, vr, rx, bool(x["client"].get("raise"))):
                     key = eff if not flags else f"{eff.split(':')[0]}:{one_flag(flags)}"
+                    if pkg_defect and eff.split(":")[0] in ("exception", "wrong_parsed", "annotation_mismatch"):
+                        key = f"{eff.split(':')[0]}:package_with_unresolved_imports"
                     run.vd.violation(key, f"{a['module']}.{variant} status {rx['status']}: {det}", dict(w, variant=variant, observed=vr.get("result") or vr.get("exc")))
                 results[variant] = vr
                 run.ev.seen(("C04", rx.get("expect", "undocumented" if not rx["documented"] else "?"), (rx.get("prop") or {}).get("kind"), (rx.get("media") or "").split(";")[0], variant, bool(x["client"].get("raise"))))
